@@ -8,7 +8,7 @@ use crate::sys::*;
 pub fn check(tier: Tier) -> Check {
     let parts = vec![
         Part::new("C08/acks", json!({"depth": tier.pick(3, 4), "pids": [1, 2, 65535]}), 0, tier.pick(40, 600)),
-        Part::new("C08/acks", json!({"depth": tier.pick(4, 5), "pids": [1, 65535]}), 0, tier.pick(40, 600)),
+        Part::new("C08/acks", json!({"depth": tier.pick(4, 5), "pids": if tier == Tier::Quick { vec![65535] } else { vec![1, 65535] }}), 0, tier.pick(40, 600)),
     ];
     Check {
         also_rel: false,
